@@ -765,6 +765,12 @@ for kind in ("sdh", "point"):
                 break
 
 chk.cov["measured_max_residuals"] = {k: worst[k] for k in sorted(worst)}
+# ---- the glue model of the public functions (Model files added later, see manifest text) tied to the library on every run:
+#      inputs generated here, the library run on them, the model evaluated on the same inputs by vm_compute inside coqc
+import ties.tie_C09 as _tie_glue  # noqa: E402
+_tie_n = _tie_glue.run(chk, arim, rng, Q)
+chk.cov["glue_model_tie_comparisons"] = int(_tie_n or 0)
+
 chk.finish(
     evaluations=evaluations,
     distinct_nontrivial=len(nontrivial),
